@@ -481,6 +481,24 @@ class World:
         self.reads.append(r)
         return r
 
+    def add_mismatches(self, r, per_block=2, margin=15):
+        """Replaces a few bases of every aligned block (M) of read r, at least `margin` bases away from the ends of the block."""
+        if r.chrom is None:
+            return r
+        seq = list(r.seq)
+        qpos = 0
+        for op, ln in r.cigar:
+            if op == 0:
+                if ln > 2 * margin + 4:
+                    for k in range(per_block):
+                        q = qpos + margin + ((k * 7919 + len(seq)) % (ln - 2 * margin))
+                        seq[q] = {"A": "C", "C": "G", "G": "T", "T": "A"}.get(seq[q].upper(), "A")
+                qpos += ln
+            elif op in (1, 4):
+                qpos += ln
+        r.seq = "".join(seq)
+        return r
+
     def to_eqx(self, r):
         """Rewrites the M operations of read r as =/X runs (minimap2 --eqx, pbmm2 style); everything else stays."""
         if r.chrom is None:
